@@ -46,6 +46,13 @@ type History struct {
 	// Probe (C12 only): every delete is followed by a battery of k = 1 queries from points around the object that was
 	// just removed (the place where a box that was not shrunk after the delete would mislead the pruning)
 	Probe bool `json:"probe,omitempty"`
+	// Wide n > 0 (C12 only): instead of Ops, the tree (fan-out Max, 66 to 128) is filled with the 4(2n+1) points
+	// (+-g^i, +-g^-i), i = -n..n, in an order drawn from WideSeed - points hugging the two axes, which gives dozens of
+	// leaf boxes that all reach across an axis near the origin - and k = 1 queries are issued from the axes and from
+	// around the origin: nodes with more than 64 children whose boxes nearly all contain the query point
+	Wide     int     `json:"wide,omitempty"`
+	WideG    float64 `json:"wide_g,omitempty"`
+	WideSeed uint64  `json:"wide_seed,omitempty"`
 }
 
 // custom comparable object
